@@ -114,6 +114,10 @@ def handle (op : String) (args : List String) : Option Ans :=
         match hexArgs rest with
         | some [pk, sk, n, m] => some (objEnc (objBoxEncrypt P m n pk sk), okHex (Spec.NaCl.box pk sk n m))
         | _ => none
+    | "boxobj_seal", _ :: rest =>
+        match hexArgs rest with
+        | some [rpk, m, esk] => some (outBytes (boxSeal P (zeros (m.length + 48)) m rpk esk), okHex (Spec.NaCl.boxSeal rpk esk m))
+        | _ => none
     | "boxobj_vecforms", _ :: rest =>
         match hexArgs rest with
         | some [pk, sk, n, m] => some (objEnc (objBoxEncrypt P m n pk sk), okHex (Spec.NaCl.box pk sk n m))
